@@ -1,9 +1,206 @@
+import Oas3Model.Sem.Sse
 import Oas3Model.Model.EventStream
+import Oas3Model.Proofs.Sse
+/-
+C20 — the SSE event stream: framing is stable under arriving input, the inner result sequence does
+not depend on how the transport cuts the byte stream into chunks / interleaves `Pending`, and the
+wrapper's `poll_next` yields exactly one item per non-empty-data event, in order, without ending
+the stream on a bad item and without losing a wake-up.
+
+Only statements, spec-level definitions and non-vacuity examples live here; proofs are in
+`Oas3Model/Proofs/Sse.lean`.
+-/
 namespace Oas3.Props.C20
 open Oas3.Sse Oas3.EventStream
 
-/-- a completed line shrinks the buffer (termination of the drain loop). -/
-theorem scan_consumes (b l r : List Char) (h : scan b = some (l, r)) : r.length < b.length :=
-  scan_lt b l r h
+/-! ## spec-level definitions -/
+
+/-- the whole byte stream delivered by a scripted transport -/
+def allBytes : List In → List UInt8
+  | [] => []
+  | .chunk bs :: r => bs ++ allBytes r
+  | .pending :: r => allBytes r
+
+/-- the obviously-right consumer view of the wrapper: one item per non-empty-data event, in order;
+errors are items too (they do not end the stream); ends exactly at the inner `done` (or panic). -/
+def specTrace {R : Type} (dec : List Char → R) : List InnerOut → List (OuterOut R)
+  | [] => [.done]
+  | .ev d :: r => if d.isEmpty then specTrace dec r else .item (dec d) :: specTrace dec r
+  | .utf8Err :: r => .sseErr :: specTrace dec r
+  | .pending :: r => .pending :: specTrace dec r
+  | .done :: _ => [.done]
+  | .panic :: _ => [.panic]
+
+def isPending {R : Type} : OuterOut R → Bool
+  | .pending => true
+  | _ => false
+
+/-! ## 1. line framing -/
+
+/-- a completed line is never re-interpreted when more input arrives -/
+theorem scan_append (b m l r : List Char) : scan b = some (l, r) → scan (b ++ m) = some (l, r ++ m) :=
+  Oas3.Sse.scan_append' b m l r
+
+/-! ## 2. event parser -/
+
+/-- draining `buf ++ m` = draining `buf`, then draining what is left with `m` appended -/
+theorem drainAll_append (buf m data : List Char) :
+    drainAll (buf ++ m) data =
+      (let (b', d', evs) := drainAll buf data
+       let (b'', d'', evs') := drainAll (b' ++ m) d'
+       (b'', d'', evs ++ evs')) :=
+  Oas3.Sse.drainAll_append' buf m data
+
+/-- after draining, nothing more is available -/
+theorem drainAll_idem (buf data : List Char) :
+    (let (b', d', _) := drainAll buf data
+     drainAll b' d' = (b', d', [])) :=
+  Oas3.Sse.drainAll_idem' buf data
+
+/-! ## 3. UTF-8 layer -/
+
+/-- a decoded scalar only depends on the (at most 4) bytes it spans -/
+theorem decode1_stable (x y : List UInt8) (c : Char) (n : Nat) :
+    decode1 x = some (c, n) → n ≤ x.length ∧ 0 < n ∧ n ≤ 4 ∧ decode1 (x ++ y) = some (c, n) := fun h =>
+  ⟨(decode1_bound x c n h).2, (decode1_bound x c n h).1, decode1_le4 x c n h, decode1_append x y c n h⟩
+
+theorem decode1_prefix4 (x : List UInt8) : decode1 x = decode1 (x.take 4) := decode1_take4 x
+
+theorem utf8Split_append (a b : List UInt8) :
+    utf8Split (a ++ b) =
+      (let (cs, rem) := utf8Split a
+       let (cs', rem') := utf8Split (rem ++ b)
+       (cs ++ cs', rem')) :=
+  Oas3.Sse.utf8Split_append' a b
+
+/-! ## 4. chunk invariance of the inner stream -/
+
+/-- however the byte stream is cut into chunks (also inside a UTF-8 sequence or inside CRLF) and
+wherever `Pending` polls are interleaved, the inner result sequence is that of the stream delivered
+whole. -/
+theorem chunk_invariance (script : List In) :
+    (innerRun {} script).filter (fun o => o != .pending) = innerRun {} [.chunk (allBytes script)] :=
+  innerRun_whole allBytes rfl (fun _ _ => rfl) (fun _ => rfl) script {} bytesInv_init
+
+/-- the same from any state whose byte buffer holds no decodable prefix (all reachable states) -/
+theorem chunk_invariance_from (st : St) (h : utf8Split st.bytes = ([], st.bytes)) (script : List In) :
+    (innerRun st script).filter (fun o => o != .pending) = innerRun st [.chunk (allBytes script)] :=
+  innerRun_whole allBytes rfl (fun _ _ => rfl) (fun _ => rfl) script st h
+
+/-! ## 5./6. the wrapper's poll loop -/
+
+theorem poll_spec {R : Type} (dec : List Char → R) (is : List InnerOut) :
+    outerTrace dec is = specTrace dec is := by
+  induction is with
+  | nil => exact outerTrace_nil dec
+  | cons i t ih =>
+    cases i <;>
+      simp [specTrace, outerTrace_pending, outerTrace_ev, outerTrace_utf8Err, outerTrace_done,
+        outerTrace_panic, ih]
+
+/-- the wrapper answers `Pending` only when the inner stream just answered `Pending` (so the waker is
+registered), having consumed only skipped empty events before -/
+theorem no_lost_wakeup {R : Type} (dec : List Char → R) (is : List InnerOut) :
+    (pollNext dec is).1 = .pending →
+      ∃ pre rest, is = pre ++ .pending :: rest ∧ (∀ i ∈ pre, i = .ev []) ∧ (pollNext dec is).2 = rest :=
+  pollNext_pending dec is
+
+/-! ## 7. end to end -/
+
+/-- what the consumer sees (ignoring `Pending`) does not depend on chunking / scheduling -/
+theorem exactly_once {R : Type} (dec : List Char → R) (script : List In) :
+    (outerTrace dec (innerRun {} script)).filter (fun o => !isPending o) =
+      outerTrace dec (innerRun {} [.chunk (allBytes script)]) := by
+  rw [outerTrace_filter dec (fun o => !isPending o) rfl (fun _ => rfl) rfl rfl rfl, chunk_invariance]
+
+/-- ... and, when the crate does not panic, it is: one item per non-empty-data event of the whole
+stream, in order, then one `SseParse` error iff the stream ends inside a UTF-8 sequence, then the end -/
+theorem exactly_once_items {R : Type} (dec : List Char → R) (script : List In) (st' : St)
+    (evs : List (List Char)) (h : feedBytes {} (allBytes script) = some (st', evs)) :
+    outerTrace dec (innerRun {} [.chunk (allBytes script)]) =
+      (evs.filter (fun d => !d.isEmpty)).map (fun d => .item (dec d))
+        ++ (if st'.bytes.isEmpty then [] else [.sseErr]) ++ [.done] := by
+  rw [innerRun_single, h]
+  simp only
+  rw [outerTrace_evs]
+  split <;> simp [outerTrace_utf8Err, outerTrace_done]
+
+theorem exactly_once_panic {R : Type} (dec : List Char → R) (script : List In)
+    (h : feedBytes {} (allBytes script) = none) :
+    outerTrace dec (innerRun {} [.chunk (allBytes script)]) = [.panic] := by
+  rw [innerRun_single, h]
+  exact outerTrace_panic dec []
+
+/-! ## 8. concrete witnesses -/
+
+/-- DEFECT of the inner crate reproduced by the model: `data: 1\r\r` then end of stream. The second
+CR is a complete blank line per the SSE grammar, but nom's streaming `line` keeps a trailing bare CR
+`Incomplete` (it could be the start of CRLF), so the event `1` is never delivered ... -/
+theorem trailingCR_cex :
+    innerRun {} [.chunk [100,97,116,97,58,32,49,13,13]] = [.done] := by decide +kernel
+
+/-- ... whereas it is delivered as soon as one more byte arrives -/
+theorem trailingCR_ok :
+    innerRun {} [.chunk [100,97,116,97,58,32,49,13,13,10]] = [.ev ['1'], .done] := by decide +kernel
+
+/-- DEFECT of the inner crate reproduced by the model: a stream starting with a UTF-8 BOM
+(`EF BB BF`) makes the crate panic (`&string[1..]` is not on a char boundary). -/
+theorem bom_panic_cex :
+    innerRun {} [.chunk [0xEF,0xBB,0xBF,100,97,116,97,58,32,49,10,10]] = [.panic] := by decide +kernel
+
+/-- the consumer of the wrapper sees that panic, and nothing else -/
+theorem bom_panic_outer :
+    outerTrace (R := Nat) List.length (innerRun {} [.chunk [0xEF,0xBB,0xBF,100,97,116,97,58,32,49,10,10]])
+      = [.panic] := by decide +kernel
+
+/-! ### non-vacuity -/
+
+/-- `data: é\r\n\r\ndata: 2\n\n` cut inside the 2-byte `é` (C3|A9), inside both CRLFs, with `Pending`s -/
+def cutScript : List In :=
+  [.chunk [100,97,116,97,58,32,0xC3], .pending, .chunk [0xA9,13], .chunk [10,13], .pending,
+   .chunk [10,100,97,116,97,58,32,50,10,10]]
+
+example : allBytes cutScript =
+    [100,97,116,97,58,32,0xC3,0xA9,13,10,13,10,100,97,116,97,58,32,50,10,10] := by decide
+
+example : innerRun {} cutScript =
+    [.pending, .pending, .ev [Char.ofNat 0xE9], .ev ['2'], .done] := by decide +kernel
+
+example : innerRun {} [.chunk (allBytes cutScript)] = [.ev [Char.ofNat 0xE9], .ev ['2'], .done] := by
+  decide +kernel
+
+example : outerTrace (R := Nat) List.length (innerRun {} cutScript) =
+    [.pending, .pending, .item 1, .item 1, .done] := by decide +kernel
+
+/-- hypothesis of `exactly_once_items` is satisfiable (here with two events and nothing left over) -/
+example : (feedBytes {} (allBytes cutScript)).map (fun p => (p.1.bytes, p.2)) =
+    some ([], [[Char.ofNat 0xE9], ['2']]) := by decide +kernel
+
+/-- a stream ending inside a UTF-8 sequence: the event, then one `SseParse` error, then the end -/
+example : outerTrace (R := Nat) List.length (innerRun {} [.chunk [100,97,116,97,58,32,49,10,10,0xC3]]) =
+    [.item 1, .sseErr, .done] := by decide +kernel
+
+/-- `scan_append` hypothesis is satisfiable, and a trailing bare CR is *not* a completed line -/
+example : scan ['a', '\r', '\n', 'b'] = some (['a'], ['b']) := by decide
+example : scan ['a', '\r'] = none := by decide
+example : scan (['a', '\r'] ++ ['\n', 'b']) = some (['a'], ['b']) := by decide
+
+/-- `drainAll` : two events available, `x` left in the buffer, builder holds `data:3` -/
+example : drainAll "data:1\n\ndata:2\n\ndata:3\nx".toList [] =
+    (['x'], ['3', '\n'], [['1'], ['2']]) := by decide +kernel
+
+/-- `utf8Split` keeps an incomplete sequence, and rejects nothing that later completes -/
+example : utf8Split [0x61, 0xE2, 0x82] = (['a'], [0xE2, 0x82]) := by decide +kernel
+example : utf8Split ([0xE2, 0x82] ++ [0xAC]) = ([Char.ofNat 0x20AC], []) := by decide +kernel
+
+/-- the wrapper: errors are items and do not end the stream; empty-data events are skipped; nothing
+after `done` is looked at -/
+example : outerTrace (R := Nat) List.length
+    [.utf8Err, .ev ['a'], .ev [], .pending, .ev ['b', 'c'], .done, .ev ['z']] =
+    [.sseErr, .item 1, .pending, .item 2, .done] := by decide +kernel
+
+/-- `no_lost_wakeup` hypothesis is satisfiable -/
+example : (pollNext (R := Nat) List.length [.ev [], .ev [], .pending, .ev ['a']]) =
+    (.pending, [.ev ['a']]) := by decide
 
 end Oas3.Props.C20
